@@ -48,6 +48,15 @@ def run(chk, tier, scale=1.0):
     n = int((480 if tier == "quick" else 20000) * scale)
     opts = {"weights": {"reannounce": 6, "stray": 10, "disconnect": 5, "registered": 3, "timeout": 5, "reply": 24}}
     jobs = pcommon.hist_jobs(b, n, chk.seed, PROPS, opts=opts, tag="c01")
+    # a quarter of the histories run on an unsanitized build: a second verdict written from a request that was already
+    # freed aborts the sanitized daemon before the line appears (C08's concern); here it shows as what it writes
+    import build as buildmod
+    bplain = buildmod.build_daemon(buildmod.fresh_dir("c01p-" + tier), "plain")
+    for k, j in enumerate(jobs):
+        if k % 4 == 3:
+            j["build"] = bplain
+            j["config"] = pcommon.random_config(__import__("random").Random("c01p/%d/%d" % (chk.seed, k)), want_class=True).to_json()
+    chk.count("histories_on_unsanitized_build", len([1 for k in range(len(jobs)) if k % 4 == 3]))
     res = vcommon.pmap(prun.hist_worker, jobs, chunksize=4)
     prun.fold(chk, "C01", res)
     # exhaustive orders of a 7-event script: two instances of one id, queries, replies, disconnect
